@@ -116,6 +116,30 @@ def cases(tier):
             out.append(("SCALAR-READ %s %s" % (t, acc), "fn f(i: usize)\n{\n\tvar z: %s = %s;\n\tvar r = z%s;\n}\n" % (t, lit, acc), None))
             out.append(("SCALAR-PTR-ASG %s %s" % (t, acc), "fn f(i: usize, z: &%s)\n{\n\tz%s = %s;\n}\n" % (t, acc, lit), None))
         out.append(("SCALAR-OK %s" % t, "fn f(i: usize, z: &%s)\n{\n\tvar a: [3]%s;\n\ta[i] = %s;\n\tz = a[2];\n}\n" % (t, t, lit), "OK"))
+    # the element of an array MEMBER is assigned a value of the element type only (directly, through a pointer to the
+    # structure, through a nested structure)
+    MT = ["i32", "u32", "u8", "i64", "bool", "usize"]
+    for a in MT:
+        for b in MT:
+            ok = "OK" if a == b else None
+            lit = "true" if b == "bool" else "1" + b
+            decl = "struct Buffer\n{\n\tdata: [4]%s,\n\tused: usize,\n}\nstruct Outer\n{\n\tinner: Buffer,\n\trows: [2][3]%s,\n}\n" % (a, a)
+            out.append(("MEMELT %s %s" % (a, b), decl + "fn f(v: %s)\n{\n\tvar buffer: Buffer;\n\tbuffer.data[1] = v;\n}\n" % b, ok))
+            out.append(("MEMELT-LIT %s %s" % (a, b), decl + "fn f()\n{\n\tvar buffer: Buffer;\n\tbuffer.data[1] = %s;\n}\n" % lit, ok))
+            out.append(("MEMELT-PTR %s %s" % (a, b), decl + "fn f(buffer: &Buffer, v: %s)\n{\n\tbuffer.data[0] = v;\n}\n" % b, ok))
+            out.append(("MEMELT-NEST %s %s" % (a, b), decl + "fn f(o: &Outer, v: %s)\n{\n\to.inner.data[2] = v;\n}\n" % b, ok))
+            out.append(("MEMELT-ROWS %s %s" % (a, b), decl + "fn f(o: &Outer, v: %s)\n{\n\to.rows[1][2] = v;\n}\n" % b, ok))
+            out.append(("MEMELT-READ %s %s" % (a, b), decl + "fn f(o: &Outer)\n{\n\tvar r: %s = o.inner.data[2];\n}\n" % b, ok))
+    # an ill-typed call (argument type, number of arguments) is rejected inside every expression form
+    CTX = [("cast", "%s as i64"), ("neg", "-%s"), ("paren", "(%s)"), ("bin", "%s + 1"), ("bin2", "2 * (%s)"), ("index", "arr[%s as usize]"), ("arg", "g2(%s)"), ("castarg", "g2(%s as i32)"),
+           ("arrlit", "[%s, 1]"), ("structlit", "S { m: %s }"), ("lenidx", "|rows[%s as usize]|"), ("cmp", "%s == 1"), ("castcast", "(%s as i64) as u8"), ("nested", "g2(arr[g2(%s) as usize])")]
+    CPRE = "struct S\n{\n\tm: i32,\n}\nfn g(x: i32) -> i32\n{\n\treturn: x\n}\nfn g2(x: i32) -> i32\n{\n\treturn: x\n}\n"
+    for cname, pat in CTX:
+        for call, verdict in (("g(ok)", "OK"), ("g(bad)", None), ("g()", None), ("g(ok, ok)", None), ("g(flag)", None)):
+            body = "\tvar ok: i32 = 1;\n\tvar bad: u32 = 1;\n\tvar flag: bool = true;\n\tvar arr: [4]i32 = [1, 2, 3, 4];\n\tvar rows: [2][3]i32;\n"
+            if cname == "cmp": body += "\tif %s\n\t{\n\t\tok = 2;\n\t}\n" % (pat % call)
+            else: body += "\tvar r = %s;\n" % (pat % call)
+            out.append(("CALLCTX %s %s" % (cname, call), CPRE + "fn f()\n{\n" + body + "}\n", verdict))
     for a in PRIMS:
         out.append(("MEMOK %s" % a, "struct H\n{\n\tm: %s,\n}\nfn f(v: %s)\n{\n\tvar h = H { m: v };\n}\n" % (a, a), "OK"))
     return out
